@@ -257,8 +257,6 @@ theorem upperPct_stable {set : List Nat} (hs : SetClosed set) (s : Str) (h : ∀
   | case5 => exact h
 
 theorem defaultSet_closed : SetClosed defaultSet := by decide
-theorem passwordSet_closed : SetClosed passwordSet := by decide
-theorem usernameSet_closed : SetClosed usernameSet := by decide
 theorem querySet_closed : SetClosed querySet := by decide
 theorem fragmentSet_closed : SetClosed fragmentSet := by decide
 
@@ -662,29 +660,6 @@ example : (parse cfgT [104, 116, 116, 112, 58, 47, 47, 104, 58, 56, 49]).bind UR
 example : (parse cfgT [104, 116, 116, 112, 58, 47, 47, 104, 58, 48, 56, 48]).bind URLInfo.url
     = .ok [104, 116, 116, 112, 58, 47, 47, 104, 47] := by decide
 
-/-! ## The composed statement (not yet a theorem)
-
-`C10_full` is the property over whole URLs.  What is proved above are its components:
-host (`hostname_idem`, `hostname_lower_ascii`), IPv4 (`ipv4_normal_form_fixed`), path
-(`flatten_clean`, `flatten_idem`), escapes (`upperPct_idem`, `upperPct_escUpper`),
-percent-encoding of every component (`pctBytes_idem`, `percentEncode_fixed`,
-`component_ascii`), scheme (`scheme_lower`), port (`default_port_elided`).  Missing for the
-composition: the split-back lemma (re-parsing `scheme://userinfo@host:port/path?query`
-finds the same component boundaries: needs "the encoded user info holds none of `/?#@`",
-"the host holds none of `/?#@:`" — proved in `hostname_lower_ascii` —, "the path holds no
-`?#`, the query no `#`"), `int(str(port)) = port`, the commutation of `flatten_path` with
-UTF-8 percent-encoding of the segments, and the two parameter facts (IPv6 `compressed` is a
-fixed point of `IPv6Address`, `unquote ∘ percent_encode = id` on decoded user info).
--/
-
-/-- the full property: normalising a normalised URL changes nothing, for every accepted string -/
-def C10_full : Prop :=
-  ∀ (c c' : Cfg) (s : Str) (i : URLInfo) (n : Str),
-    c'.encode = utf8Enc →
-    (∀ x y, c.ipv6 x = .ok y → c'.ipv6 y = .ok y) →
-    (∀ x, c'.unquote x = c.unquote x) →
-    parse c s = .ok i → (netScheme? i.scheme).isSome → i.url = .ok n →
-    ∃ j, parse c' n = .ok j ∧ j.url = .ok n ∧
-      (j.scheme, j.hostname, j.port, j.path, j.query) = (i.scheme, i.hostname, i.port, i.path, i.query)
+/-! The composed statements (`norm_idem`, `norm_reparse`, `norm_ascii`, `C10_full_holds`) are in Proofs/C10Norm.lean. -/
 
 end Wpull.Url
